@@ -1,4 +1,4 @@
-mod ctx; mod model; mod rng; mod util; mod props; mod chartable;
+mod ctx; mod model; mod rng; mod util; mod props; mod chartable; mod render; mod gen; mod corpus;
 use ctx::{Ctx, Known};
 
 fn load_known(path: &str) -> Vec<Known> {
@@ -18,6 +18,7 @@ fn main() {
     let mut ctx = Ctx::new(prop, tier, seed, driver, load_known(known));
     match prop.as_str() {
         "C12" => props::c12::run(&mut ctx),
+        "C04" => props::c04::run(&mut ctx),
         #[cfg(feature = "ffi")]
         "C19" => props::c19::run(&mut ctx),
         _ => { eprintln!("unknown property {prop}"); std::process::exit(2); }
